@@ -186,6 +186,10 @@ INVARIANT MonProbe
 """
 
 
+def mod_name(name):
+    return "MC_c20_" + name
+
+
 def replay_zippy_edges(jobfile, edges_file, shards=None):
     build_harness()
     shards = shards or min(NCPU, 12)
@@ -221,8 +225,16 @@ def check_instance(name, desc, wd, qmax=1, maxep=0, maxmod=0, maxidle=0, maxhold
     t0 = time.time()
     C = cfgdesc.code
     dump, jobfile = zippy_dump(desc, wd, name)
-    if dump["deadline"] != desc["D"] or dump["wait_enable"] != desc["W"]:
-        raise ToolError("parser read other zippy options than written: %r" % dump)
+    if dump["deadline"] != desc["D"] or dump["wait_enable"] != desc["W"] or \
+            dump["smart_space"] != {"none": "none", "add-space-only": "add", "full": "full"}[desc["ss"]]:
+        # The options in force are not the written ones.  That is for P_C20 to judge (its parameters come from the text):
+        # L1 would follow the parser (binding A) with the wrong, possibly huge, time constants, so the exhaustive
+        # exploration of this instance is skipped and the traces recorded from the real code decide.
+        return {"name": name, "states": 0, "generated": 0, "tlc_wall_s": 0, "wall_s": round(time.time() - t0, 1),
+                "n_monerr": 0, "n_panic": 0, "n_nostutter": 0, "monerr_file": os.path.join(wd, mod_name(name) + ".none"),
+                "skipped": "defzippy options in force differ from the text: written D=%s W=%s ss=%s, parser deadline=%s "
+                           "wait_enable=%s smart_space=%s" % (desc["D"], desc["W"], desc["ss"], dump["deadline"],
+                                                              dump["wait_enable"], dump["smart_space"])}
     consts = zippy_constants(dump, since_cap=since_cap, bug=bug)
     params = params_of(desc, fwin=10000, qcap=desc["W"] + 1)
     mod = "MC_c20_" + name
@@ -313,6 +325,42 @@ def chord_attempts(desc, rng, limit=None, d_gaps=None):
     return out
 
 
+def deadline_probes(desc):
+    """"within the deadline" at realistic, non-default time constants: for every chord of the dictionary (antecedents
+    performed first) and every permutation, the second key arrives 0.7 D after the first (must expand) resp. 1.5 D after
+    it (zippy is disabled: literal), the remaining keys 1 tick apart; then everything is released and, after more than
+    the idle-reactivate time, the chord is pressed again quickly (must expand again)."""
+    C = cfgdesc.code
+    D, W = desc["D"], desc["W"]
+    out = []
+    for ln in desc["lines"]:
+        chain = [[C(k) for k in ch] for ch in ln["chain"]]
+        if len(chain[-1]) < 2:
+            continue
+        for perm in itertools.permutations(chain[-1]):
+            for gap in ((7 * D) // 10, D + D // 2):
+                s = []
+                for ch in chain[:-1]:
+                    for k in ch:
+                        s += [["d", k], ["t", 1]]
+                    for k in ch:
+                        s += [["u", k], ["t", 1]]
+                s += [["d", perm[0]], ["t", max(gap, 1)]]
+                for k in perm[1:]:
+                    s += [["d", k], ["t", 1]]
+                for k in perm:
+                    s += [["u", k], ["t", 1]]
+                s += [["t", W + D + 3]]
+                if len(chain) == 1:
+                    for k in perm:
+                        s += [["d", k], ["t", 1]]
+                    for k in perm:
+                        s += [["u", k], ["t", 1]]
+                    s += [["t", W + 3]]
+                out.append(s)
+    return out
+
+
 def rand_typing(rng, desc, n_events):
     """Physically consistent random typing with gaps around the deadline / the re-enable time."""
     C = cfgdesc.code
@@ -334,6 +382,8 @@ def rand_dict(rng, tier, small=False):
     if small:
         alphabet = sorted(rng.sample(alphabet, 3), key=alphabet.index)
     n = rng.randint(2, 4)
+    ss = rng.choice(["none", "add-space-only"]) if small else rng.choice(["none", "none", "add-space-only", "full"])
+    fol_alphabet = alphabet + (["comm", "comm"] if ss == "full" else [])
     lines, seen = [], set()
     stems = ["".join(rng.choice(LETTERS) for _ in range(rng.randint(1, 3))) for _ in range(2)]
     tries = 0
@@ -345,7 +395,7 @@ def rand_dict(rng, tier, small=False):
                 extra = [k for k in alphabet if k not in base[-1]]
                 chain = base[:-1] + [sorted(base[-1] + [rng.choice(extra)])]
             else:                                              # follow-up of an existing chord
-                chain = base + [sorted(rng.sample(alphabet, rng.randint(1, 2)))]
+                chain = base + [sorted(set(rng.sample(fol_alphabet, rng.randint(1, 2))), key=fol_alphabet.index)]
         else:
             chain = [sorted(rng.sample(alphabet, rng.randint(2, 3)))]
         if len(chain) > 3:
@@ -365,11 +415,10 @@ def rand_dict(rng, tier, small=False):
     # every antecedent of a follow-up must itself be a line (the parser requires it only implicitly: an antecedent
     # without its own line has an empty output)
     if small:
-        return {"lines": lines, "D": rng.choice([2, 3]), "W": rng.choice([1, 2]), "ss": rng.choice(["none", "add-space-only"]),
+        return {"lines": lines, "D": rng.choice([2, 3]), "W": rng.choice([1, 2]), "ss": ss,
                 "punct": None, "keys": alphabet, "mods": []}
     D = rng.choice([2, 3, 5, 20])
     W = rng.choice([1, 2, 3, 15])
-    ss = rng.choice(["none", "none", "add-space-only", "full"])
     keys = ["a", "b", "c", "spc"] + (["comm"] if ss == "full" else [])
     return {"lines": lines, "D": D, "W": W, "ss": ss, "punct": None, "keys": keys,
             "mods": rng.choice([["lsft"], ["lsft", "rsft"], ["lsft", "ralt"]])}
@@ -398,7 +447,8 @@ def family(tier):
         # a top-level chord whose keys are a strict subset of a pending multi-key follow-up chord: it must still fire
         ("fsub", _desc([(["ab"], "day"), (["ab", "abc"], "Monday"), (["bc"], "hi")], "abc"), dict(hold=3)),
         ("sft", _desc([(["ab"], "Hi"), (["ab", "a"], "him")], "ab", ["rsft"]), dict(hold=3)),
-        ("ssp", _desc([(["ab"], "hi")], ["a", "b", "comm"], ss="full"), dict(hold=3)),
+        # smart space full; a follow-up chord started by a punctuation key (the space is erased, then the antecedent)
+        ("ssp", _desc([(["ab"], "hi"), (["ab", ["comm"]], "ho")], ["a", "b", "comm"], ss="full"), dict(hold=3)),
         ("spc", _desc([([" a"], "and"), ([" ab"], "about")], ["spc", "a", "b"], ss="add-space-only"), dict(hold=3)),
     ]
     if tier == "quick":
@@ -458,7 +508,9 @@ def run(tier, seed):
     for name, desc, b in family(tier) + ([] if quick else random_instances(rng, 8)):
         r = check_instance(name, desc, wd, maxhold=b["hold"], workers=6, timeout=1500)
         res.add_instance(r)
-        if len(res.samples) < 4:
+        if r.get("skipped"):
+            res.notes.append("instance %s not explored by TLC: %s" % (name, r["skipped"]))
+        if len(res.samples) < 4 and not r.get("skipped"):
             res.samples.append({"instance": name, "dictionary": dict_text(desc), "defzippy": kbd_text(desc).splitlines()[-1],
                                 "states": r["states"], "edges": r.get("edges"), "model_level_rejections": r["n_monerr"]})
         ws = flow.witness_scripts(r["monerr_file"], 25 if quick else 80)
@@ -472,6 +524,12 @@ def run(tier, seed):
         groups["random"].append(job(desc, "r:" + name, [rand_typing(rng, desc, rng.randint(4, 40)) for _ in range(20 if quick else 150)]))
     # C beyond the bounds of the exhaustive instances: random dictionaries (<= 4 lines over {a, b, c, space}), larger
     # deadlines, both shifts / altgr, the quantifier's attempts and random typing
+    # the written deadline / idle time at non-default values far from the 500 ms defaults (recorded runs only)
+    for name, desc, b in family("quick"):
+        if name in ("ext", "fsub", "ssp") or not quick:
+            for D, W in ((1000, 60), (200, 700)):
+                d2 = dict(desc, D=D, W=W)
+                groups["attempts"].append(job(d2, "t:%s_D%d" % (name, D), deadline_probes(d2) + chord_attempts(d2, rng, limit=40 if quick else 300)))
     for i in range(10 if quick else 100):
         desc = rand_dict(rng, tier)
         groups["attempts"].append(job(desc, "a:rd%d" % i, chord_attempts(desc, rng, limit=120 if quick else 500)))
